@@ -582,12 +582,81 @@ func semKey(s *semPair) string {
 	return b.String()
 }
 
+// smallCapacity: every sharded LRU constructor x shard count x capacity around the shard count: every
+// key of a key family must reach a shard that exists (no panic), be readable right after it was set
+// (each shard holds at least one entry) and be gone after Delete - the parameters of the constructor
+// must not make routing and shard storage disagree.
+func smallCapacity(c *seq.Ctx) {
+	type mk struct {
+		name string
+		new  func(capacity int64, opt remap.Option) func(op string, k interface{}, v int) string
+	}
+	mks := []mk{
+		{"cache.NeWideLRUCache", func(cp int64, o remap.Option) func(string, interface{}, int) string { return facade(cache.NeWideLRUCache(cp, o)) }},
+		{"cache.NewWideXHashLRUCache", func(cp int64, o remap.Option) func(string, interface{}, int) string {
+			return facade(cache.NewWideXHashLRUCache(cp, o))
+		}},
+		{"tiny.NeWideLRU", func(cp int64, o remap.Option) func(string, interface{}, int) string { return tfacade(tiny.NeWideLRU(cp, o)) }},
+		{"tiny.NewWideXHashLRU", func(cp int64, o remap.Option) func(string, interface{}, int) string { return tfacade(tiny.NewWideXHashLRU(cp, o)) }},
+	}
+	for _, m := range mks {
+		for _, shards := range []uint64{1, 2, 3, 5, 7, 73, 211} {
+			caps := map[int64]bool{1: true, 2: true, int64(shards) - 1: true, int64(shards): true, int64(shards) + 1: true, 2*int64(shards) + 1: true, 100000: true}
+			for cp := range caps {
+				if cp < 1 {
+					continue
+				}
+				var keys []interface{}
+				for i := 0; i <= int(2*shards)+1; i++ {
+					keys = append(keys, i, fmt.Sprintf("k%d", i))
+				}
+				keys = append(keys, int64(-1), uint32(7), "")
+				bad := func() (b string) {
+					defer func() {
+						if x := recover(); x != nil {
+							b = fmt.Sprintf("panic: %v", x)
+						}
+					}()
+					f := m.new(cp, remap.WithPrime(shards))
+					for i, k := range keys {
+						f("Set", k, i+1)
+						if got, want := f("Get", k, 0), fmt.Sprint(i+1, true); got != want {
+							return fmt.Sprintf("Get(%v) right after Set = %s, want %s", k, got, want)
+						}
+						if got := f("Exist", k, 0); got != "true" {
+							return fmt.Sprintf("Exist(%v) right after Set = %s", k, got)
+						}
+					}
+					for _, k := range keys {
+						f("Delete", k, 0)
+						if got := f("Peek", k, 0); !strings.HasSuffix(got, "false") {
+							return fmt.Sprintf("Peek(%v) after Delete = %s", k, got)
+						}
+					}
+					return ""
+				}()
+				c.Case(fmt.Sprintf("%s/ok=%v", m.name, bad == ""), bad, m.name+" with a capacity near the shard count: "+firstWords(bad), func() interface{} {
+					return map[string]interface{}{"constructor": m.name, "shards": shards, "capacity": cp}
+				})
+			}
+		}
+	}
+}
+
+func firstWords(s string) string {
+	if i := strings.IndexAny(s, "(:"); i > 0 {
+		return s[:i]
+	}
+	return s
+}
+
 func main() {
 	r := ev.Start("C17")
-	r.Rule("routing: shard counts 1..128, 211, 509, 1024, 4093 x every supported key type at its boundary values (all int8/uint8, boundary sets of the wider types incl. negatives and MaxUint64, strings/[]byte/Bs of length 0..3 over 3 bytes, HitGroup) through SimpleIndex and XHashIndex: in range, stable across calls and instances; SearchIndex on boundary probes k*(Max/n)+{-1,0,1,2,mid}: monotone, no shard skipped, ends at 0 and n-1. containers: breadth-first over operation sequences on (sharded, unsharded) pairs of Map, LRU, tiny LRU, KeyLocker, TKeyLocker (incl. multi-key calls), SemMap for 1,2,3,73 shards with modulo and xxhash routing, merged on the reference state, answers and hook-observed entry counts compared after every step")
+	r.Rule("routing: shard counts 1..128, 211, 509, 1024, 4093 x every supported key type at its boundary values (all int8/uint8, boundary sets of the wider types incl. negatives and MaxUint64, strings/[]byte/Bs of length 0..3 over 3 bytes, HitGroup) through SimpleIndex and XHashIndex: in range, stable across calls and instances; SearchIndex on boundary probes k*(Max/n)+{-1,0,1,2,mid}: monotone, no shard skipped, ends at 0 and n-1. containers: breadth-first over operation sequences on (sharded, unsharded) pairs of Map, LRU, tiny LRU, KeyLocker, TKeyLocker (incl. multi-key calls), SemMap for 1,2,3,73 shards with modulo and xxhash routing, merged on the reference state, answers and hook-observed entry counts compared after every step; every sharded LRU constructor x 1..211 shards x capacities 1,2,shards-1..shards+1,2*shards+1: every key of a family is routed to an existing shard, readable right after Set and gone after Delete")
 	r.Assume("LRU capacity is large enough that the per-shard bound never binds (the property's own exception)", "locker and semaphore sequences contain only calls that cannot block (acquire with an already-cancelled context is a try-acquire)")
 	var jobs []func()
 	jobs = append(jobs, func() { seq.RunFamily(r, seq.Family{Name: "routing", Run: routing}) })
+	jobs = append(jobs, func() { seq.RunFamily(r, seq.Family{Name: "sharded-lru/capacity-near-shard-count", Run: smallCapacity}) })
 	for _, prime := range []uint64{1, 2, 3, 73} {
 		for _, xh := range []bool{false, true} {
 			prime, xh := prime, xh
